@@ -66,6 +66,17 @@ type c03Step struct {
 	// Crash: a second crash, during recovery
 	Site2 string `json:"site2"`
 	Hit2  int    `json:"hit2"`
+	// End / Crash: known findings whose trigger Crash.tla marked in this behaviour (KF-C03-3 is only accepted there)
+	Ckf []string `json:"ckf"`
+}
+
+func c03HasKF(l []string, id string) bool {
+	for _, x := range l {
+		if x == id {
+			return true
+		}
+	}
+	return false
 }
 
 // c03Spec is what a child process is told to do.
@@ -708,6 +719,19 @@ func (h *c03LogWatch) has(sub string) bool {
 
 // c03Verdict is called with the directory left by the crashed child(ren).
 func c03Verdict(w []c03Step, seed int64, dir string, run *c03Run, pt c03Point) (sig, msg string, recovered c03Contents) {
+	// KF-C03-3 is a property of the workload: accepted only where the model says the workload triggers it
+	kf3 := len(w) > 0 && c03HasKF(w[len(w)-1].Ckf, "KF-C03-3")
+	if pt.model != nil && c03HasKF(pt.model.Ckf, "KF-C03-3") {
+		kf3 = true
+	}
+	sig, msg, recovered = c03Verdict2(w, seed, dir, run, pt)
+	if sig == "deleted-sample-replayed-from-wal" && !kf3 {
+		sig = "phantom-sample"
+	}
+	return sig, msg, recovered
+}
+
+func c03Verdict2(w []c03Step, seed int64, dir string, run *c03Run, pt c03Point) (sig, msg string, recovered c03Contents) {
 	conc := c03Conc(seed, w[0])
 	what := fmt.Sprintf("crash at %s [%s]; acked ops=%d, in flight=%d %s", pt, conc, run.acked, run.inflight, run.inflA)
 	acked := c03ExpAfter(w, run.acked)
